@@ -53,6 +53,8 @@ def _run(prop, prefixes, what, tier, seed, replay, extra=None):
     mc.report_mc(rep, prop, tier, seed)
     if prop in ("C04", "C08", "C09", "C17"):
         engine.strict_stage(rep, tier, seed, prop)
+    if prop in ("C01", "C08"):
+        engine.model_trace_stage(rep, tier, seed, prefixes)
     if prop == "C08":
         engine.trigger_stage(rep, tier, seed)
         engine.init_stage(rep, tier, seed, ("C08:",))
